@@ -62,8 +62,8 @@ Print Assumptions failed_body_reruns.
 Example killed_build_example :
   (* a is executed and recorded, the process dies before c's record is written; the recovery build runs c again *)
   let pr := [(1, Fn [] [10] [100] 1 7 false); (3, Fn [1] [] [101] 3 9 false); (10, Src 50)] in
-  let c := mkCfg false false [] false [] [] in
-  let killed := mkCfg false false [] true [1; 3] [10; 1] in
+  let c := mkCfg false false [] false [] [] [] in
+  let killed := mkCfg false false [] true [1; 3] [10; 1] [] in
   let h := [OSetProj pr; OSetFile 50 (Some (CLit 1)); OBuild killed 3] in
   o_ran (build c (run_history h) 3) = [3] /\ w_stray (run_history h) = 1.
 Proof. vm_compute. repeat split. Qed.
